@@ -4,6 +4,7 @@ import (
 	"bufio"
 	"fmt"
 	"io"
+	"unsafe"
 
 	snes "github.com/alttpo/snes"
 
@@ -132,7 +133,7 @@ func (c10) Gen(r *sim.Rand, tier string, run uint64) *sim.Scenario {
 			l = 0
 		}
 		if s.w {
-			client := sim.PickInt(r, 0, 0, 0, 1, 1, 2) // raw, bufio, io.Copy straight into the library's writer
+			client := sim.PickInt(r, 0, 0, 0, 1, 1, 2, 3) // raw, bufio, io.Copy into the library's writer, source aliasing the image
 			ops = append(ops, sim.Op{K: "write", N: []int64{int64(id), int64(client)}, B: r.Bytes(l)})
 		} else {
 			ops = append(ops, sim.Op{K: "read", N: []int64{int64(id), int64(l), int64(r.Intn(6))}})
@@ -280,7 +281,7 @@ func (c checkedWriter) Write(p []byte) (int, error) {
 	}
 	w.env.ObsInt(n)
 	w.env.ObsErr(err)
-	if string(pcopy) != string(p) {
+	if string(pcopy) != string(p) && !aliasesImage(p, w.img) {
 		w.fail("write_modified_input", "Write modified the caller's slice")
 	}
 	if s.low {
@@ -332,7 +333,7 @@ func (c checkedWriter) Write(p []byte) (int, error) {
 			n = room
 		}
 	}
-	copy(w.model[s.pos:s.pos+n], p[:n])
+	copy(w.model[s.pos:s.pos+n], pcopy[:n])
 	s.pos += n
 	w.compareImage(fmt.Sprintf("Write(%d bytes) -> (%d, %v)", len(p), n, err))
 	if err == nil && n != len(p) {
@@ -362,6 +363,15 @@ func (p *plainReader) Read(b []byte) (int, error) {
 type bytesSink struct{ b []byte }
 
 func (s *bytesSink) Write(p []byte) (int, error) { s.b = append(s.b, p...); return len(p), nil }
+
+// aliasesImage: is p a slice of the image itself (then the write legitimately changes it)?
+func aliasesImage(p, img []byte) bool {
+	if len(p) == 0 || len(img) == 0 {
+		return false
+	}
+	a, lo, hi := uintptr(unsafe.Pointer(&p[0])), uintptr(unsafe.Pointer(&img[0])), uintptr(unsafe.Pointer(&img[len(img)-1]))
+	return a >= lo && a <= hi
+}
 
 func clampInt(v, lo, hi int) int {
 	if v < lo {
@@ -607,6 +617,18 @@ func (c c10) Exec(sc *sim.Scenario, env *sim.Env) (viol *sim.Violation) {
 				continue
 			}
 			cw := checkedWriter{w, s}
+			if op.Arg(1) == 3 && !s.low && len(op.B) > 1 {
+				// moving a block up inside the image: the source is a slice of ROM.Contents that
+				// overlaps the destination from below
+				n := len(op.B)
+				delta := 1 + int(op.B[0])%(n-1)
+				src := s.pos - delta
+				if src >= 0 && src+n <= len(w.img) {
+					st.Probe("write_source_aliases_image")
+					_, _ = cw.Write(rom.Contents[src : src+n])
+					continue
+				}
+			}
 			if op.Arg(1) == 2 {
 				// io.Copy hands the transfer to the writer itself if it offers io.ReaderFrom: the
 				// library's object is used directly and the outcome is checked afterwards
